@@ -173,6 +173,45 @@ func bigAccepts(s string, base int) (ok bool, b int, panicked bool) {
 	return err == nil, b, false
 }
 
+// bigScans reports whether fmt.Sscan accepts text into a *big.Float. known is
+// false when the text carries an exponent large enough for the two exponent
+// ranges to matter (long digit runs after an exponent letter).
+func bigScans(entry, text string, chunk int) (ok, known bool) {
+	run := 0
+	for i := 0; i < len(text); i++ {
+		if text[i] >= '0' && text[i] <= '9' || text[i] == '_' {
+			run++
+			if run > 8 {
+				// long digit run: could be an exponent beyond big.Float's range
+				for j := 0; j < i; j++ {
+					if strings.ContainsRune("eEpP", rune(text[j])) {
+						return false, false
+					}
+				}
+			}
+		} else {
+			run = 0
+		}
+	}
+	defer func() {
+		if r := recover(); r != nil {
+			ok, known = false, false
+		}
+	}()
+	var f big.Float
+	var n int
+	var err error
+	switch entry {
+	case "Fscan":
+		n, err = fmt.Fscan(&faultyReader{data: []byte(text), chunk: chunk}, &f)
+	case "Fscan-rs":
+		n, err = fmt.Fscan(&simRuneScanner{data: []byte(text)}, &f)
+	default:
+		n, err = fmt.Sscan(text, &f)
+	}
+	return err == nil && n == 1, true
+}
+
 const expRule = 500000000
 
 // checkString applies oracles 1-3 to one (string, base, receiver) through the
@@ -349,6 +388,19 @@ func genToken(r rng, base int, tier string) string {
 		n := r.rangeI(0, 12)
 		b := make([]byte, n)
 		alphabet := "0123456789abcdefxXpPeE+-._ \x00\xff\xc3\xa9Iinf"
+		if r.chance(0.3) {
+			// well-formed multi-byte runes whose low byte is a digit, '.', 'e', 'p', '_', '-', 'x'
+			rs := []rune("\u0130\u0131\u0135\u0139\u012e\u0165\u0170\u015f\u012d\u0178\u00e9")
+			var sb strings.Builder
+			for i, n := 0, r.rangeI(1, 8); i < n; i++ {
+				if r.chance(0.35) {
+					sb.WriteRune(rs[r.intn(len(rs))])
+				} else {
+					sb.WriteByte("0123456789.e-"[r.intn(13)])
+				}
+			}
+			return sb.String()
+		}
 		for i := range b {
 			b[i] = alphabet[r.intn(len(alphabet))]
 		}
@@ -410,6 +462,10 @@ func structuredLit(r rng, base, maxDigits int) string {
 	dot := -1
 	if r.chance(0.6) {
 		dot = r.intn(n + 1)
+	}
+	if r.chance(0.06) {
+		// whole words of leading zeros
+		b.WriteString(strings.Repeat("0", r.pick(18, 19, 20, 37, 38, 39, 57)))
 	}
 	digs := "0123456789abcdef"
 	style := r.intn(5)
@@ -602,6 +658,16 @@ func runParse(sc *Scenario) *Outcome {
 					base0 = &g
 				} else if got.key() != base0.key() {
 					return viol("delivery-dependence", fmt.Sprintf("%s over %q: chunk size %d gives %s, chunk size %d gives %s", e, stream, chunks[0], base0.key(), ch, got.key()), rb)
+				}
+				if (!single || len(bs.Read) == 0) && e != "Fscanf" {
+					// grammar reference for the scanning entry points: big.Float implements
+					// fmt.Scanner with the same "longest prefix" rule; same reader kind, same chunking
+					if bok, known := bigScans(e, stream, ch); known {
+						cnt["scan_acceptance_checked_against_mathbig"]++
+						if bok != got.ok {
+							return viol("scan-grammar", fmt.Sprintf("%s over %q: decimal accepted=%v, fmt.Sscan into a *big.Float accepted=%v", e, stream, got.ok, bok), rb)
+						}
+					}
 				}
 				if validTok && !single {
 					w := strings.Replace(ref0.key(), fmt.Sprintf("base=%d ", ref0.base), "base=0 ", 1)
